@@ -6,6 +6,7 @@ import (
 	"fmt"
 	"os"
 	"strconv"
+	"strings"
 	"testing"
 	"time"
 
@@ -92,7 +93,11 @@ func TestSim(t *testing.T) {
 				break
 			}
 			seed := simrt.Mix(base, uint64(idx))
-			stratum := p.Strata[int(idx)%len(p.Strata)]
+			strata := p.Strata
+			if f := os.Getenv("SIM_STRATA"); f != "" { // development aid: restrict the rotation to some strata
+				strata = strings.Split(f, ",")
+			}
+			stratum := strata[int(idx)%len(strata)]
 			res := Execute(t, p, seed, stratum, nil, nil, false, keep, tier)
 			res.Seed = seed
 			type line struct {
